@@ -1,6 +1,7 @@
 SPECIFICATION Spec
 CONSTANTS
   MaxLen = 5
+  Vocab = "full"
   CheckAlpha = FALSE
 INVARIANTS BoundaryHygiene Report
 CHECK_DEADLOCK FALSE
